@@ -39,15 +39,10 @@ impl Kind {
 pub enum Sut {
     R(RandomScheduler),
     U(UrwRandomScheduler),
-    M(crate::mutants::RandomCopy),
 }
 
 impl Sut {
     pub fn new(kind: Kind, seed: u64, iters: usize) -> Sut {
-        let m = crate::mutants::which();
-        if (200..300).contains(&m) && kind == Kind::Random {
-            return Sut::M(crate::mutants::RandomCopy::new(m, seed, iters));
-        }
         match kind {
             Kind::Random => Sut::R(RandomScheduler::new_from_seed(seed, iters)),
             Kind::Urw => Sut::U(UrwRandomScheduler::new_from_seed(seed, iters)),
@@ -60,21 +55,18 @@ impl Scheduler for Sut {
         match self {
             Sut::R(s) => s.new_execution(),
             Sut::U(s) => s.new_execution(),
-            Sut::M(s) => s.new_execution(),
         }
     }
     fn next_task(&mut self, r: &[&Task], c: Option<TaskId>, y: bool) -> Option<TaskId> {
         match self {
             Sut::R(s) => s.next_task(r, c, y),
             Sut::U(s) => s.next_task(r, c, y),
-            Sut::M(s) => s.next_task(r, c, y),
         }
     }
     fn next_u64(&mut self) -> u64 {
         match self {
             Sut::R(s) => s.next_u64(),
             Sut::U(s) => s.next_u64(),
-            Sut::M(s) => s.next_u64(),
         }
     }
 }
@@ -433,7 +425,7 @@ fn eval_probe(cfg: &ProbeCfg, counts: &ProbeCounts, n: u64) -> (u64, f64, Vec<St
     let mut cells = 0u64;
     let mut worst = 0f64;
     let mut bad = Vec::new();
-    let mut z = |c: u64, p: f64| -> f64 {
+    let z = |c: u64, p: f64| -> f64 {
         let mean = n as f64 * p;
         let sd = (n as f64 * p * (1.0 - p)).sqrt();
         if sd == 0.0 {
@@ -1029,7 +1021,7 @@ fn run_muted(ctx: &CheckCtx) -> CheckResult {
     let mut res = CheckResult::new("exploration");
     let thorough = ctx.tier == Tier::Thorough;
     let nthreads = par::ncpu();
-    let n: u64 = if thorough { 1 << 20 } else { 1 << 16 };
+    let n: u64 = if thorough { 1 << 21 } else { 1 << 16 };
     let s0 = ctx.seed.wrapping_mul(n);
     let deadline = ctx.start + if thorough { Duration::from_secs(18 * 60) } else { Duration::from_secs(30) };
     let mut exhaustive = true;
@@ -1067,7 +1059,7 @@ fn run_muted(ctx: &CheckCtx) -> CheckResult {
     exhaustive &= !a1.capped && !a2.capped;
     let mut evals = a1.cases + a2.cases;
     let abstract_execs = a1.execs + a2.execs;
-    for (k, w, r) in a1.problems.into_iter().chain(a2.problems.into_iter()) {
+    for (k, w, r) in a1.problems.into_iter().take(3).chain(a2.problems.into_iter().take(3)) {
         res.finding(k, w, r);
     }
     res.cov("abstract_seed_sweep_cases", a1.cases);
@@ -1109,7 +1101,7 @@ fn run_muted(ctx: &CheckCtx) -> CheckResult {
     res.cov("leaf_coverage_trees", lc.trees);
     res.cov("leaf_coverage_executions", lc.execs);
     res.cov("leaf_coverage_max_iterations_needed_for_one_tree", lc.max_seeds_needed);
-    for (k, w, r) in lc.problems {
+    for (k, w, r) in lc.problems.into_iter().take(3) {
         res.finding(k, w, r);
     }
     let (rows, probs, errs) = leaf_freqs(s0, n, nthreads);
@@ -1168,7 +1160,7 @@ fn run_muted(ctx: &CheckCtx) -> CheckResult {
     for m in fails.machinery {
         res.machinery_errors.push(m);
     }
-    for (k, w, r) in fails.problems {
+    for (k, w, r) in fails.problems.into_iter().take(4) {
         res.finding(k, w, r);
     }
     if let Some(s) = fails.sample {
